@@ -52,6 +52,7 @@ type e2eConf struct {
 	DeleteDelay  time.Duration
 	LastDelay    time.Duration
 	GroupRe      string // grouping pattern (first submatch), default `^([^\.]*)`
+	ErrorBackoff float64 // seconds a failed request waits before retry n (times n); 0 = none
 }
 
 func defaultE2EConf() e2eConf {
@@ -452,7 +453,7 @@ func (r *e2eRig) startSender() error {
 		Validator:    r.validate,
 		Logger:       recLogger{stslog.NewFileIO(r.sentLogDir, nil, safeLogOpen, false), r},
 		Tagger:       nameToTag,
-		CacheAge:     time.Hour, ScanDelay: c.ScanDelay, Threads: c.Threads,
+		CacheAge:     time.Hour, ScanDelay: c.ScanDelay, Threads: c.Threads, ErrorBackoff: c.ErrorBackoff,
 		PayloadSize: units.Base2Bytes(c.PayloadSize), StatInterval: time.Hour,
 		PollDelay: c.PollDelay, PollInterval: c.PollInterval, PollAttempts: c.PollAttempts, PollMaxCount: c.PollMaxCount,
 		Tags: []*client.FileTag{{Name: "", InOrder: order != sts.OrderNone, Delete: c.Delete, DeleteDelay: c.DeleteDelay}},
